@@ -85,11 +85,20 @@ var compMenu = []ch.Compression{ch.CompressionDisabled, ch.CompressionNone, ch.C
 
 // revMenu: the supported window (settings as strings) with both neighbours of
 // every threshold inside it.
+// playOldRev adds revision 54428, one below the window (no settings as
+// strings; the reference knows it for the client's packets only): set by the
+// checks whose subject is what the client writes at a negotiated revision.
+var playOldRev bool
+
 func revMenu() []int {
 	var out []int
 	seen := map[int]bool{}
+	lowest := refproto.RevSettingsAsStrings
+	if playOldRev {
+		lowest--
+	}
 	add := func(v int) {
-		if v >= refproto.RevSettingsAsStrings-1 && v <= 54460 && !seen[v] {
+		if v >= lowest && v <= 54460 && !seen[v] {
 			seen[v] = true
 			out = append(out, v)
 		}
